@@ -3,6 +3,8 @@
 package main
 
 import (
+	"syscall"
+	"errors"
 	"bytes"
 	"encoding/binary"
 	"fmt"
@@ -272,23 +274,37 @@ func dirSizeAnswer(p string) int64 {
 	if st, err := os.Stat(p); err != nil || !st.IsDir() {
 		return -1
 	}
-	return realDirSize(p)
+	total, ok := realDirSize(p)
+	if !ok {
+		return -1
+	}
+	return total
 }
 
-func realDirSize(p string) int64 {
+// realDirSize: total size of the regular files beneath p, links followed. A link that does not resolve
+// (missing target, a loop, a target behind a regular file) or an entry whose path cannot be spelled (beyond
+// PATH_MAX) has nothing to add; anything else that cannot be examined makes the total unknown.
+func realDirSize(p string) (int64, bool) {
 	st, err := os.Stat(p)
 	if err != nil {
-		return 0
+		if errors.Is(err, os.ErrNotExist) || errors.Is(err, syscall.ENAMETOOLONG) || errors.Is(err, syscall.ELOOP) || errors.Is(err, syscall.ENOTDIR) {
+			return 0, true
+		}
+		return 0, false
 	}
 	if !st.IsDir() {
-		return st.Size()
+		return st.Size(), true
 	}
 	ents, _ := os.ReadDir(p)
 	var total int64
 	for _, e := range ents {
-		total += realDirSize(filepath.Join(p, e.Name()))
+		s, ok := realDirSize(filepath.Join(p, e.Name()))
+		if !ok {
+			return 0, false
+		}
+		total += s
 	}
-	return total
+	return total, true
 }
 
 func c06Stream(o *out, r *rng, thorough bool) {
@@ -345,6 +361,54 @@ func c06Stream(o *out, r *rng, thorough bool) {
 		o.count("beyond-path-max")
 		runOne(t, []creq{{op: opOpenDir, path: deep}, {op: opReadDir}, {op: opOpenDir, path: deep}, {op: opReadDirEntry}, {op: opReadDirEntry},
 			{op: opReadDirEntry}, {op: opOpenDir, path: deep}, {op: opReadDirEntryV2}, {op: opReadDirEntryV2}, {op: opReadDirEntryV2}, {op: opGetDirSize, path: deep}}, "deep:list")
+	}
+	// links that do not resolve for other reasons than a missing target - a link to itself (ELOOP), a link whose
+	// target leads through a regular file (ENOTDIR) - are dangling links like any other: omitted from listings,
+	// nothing to add to a directory size, and no reason to call the size of every directory above them unknown
+	{
+		t := &tree{}
+		t.add(tnode{path: "/", kind: 'd', mtime: genMtime(r)})
+		t.add(tnode{path: "/d", kind: 'd', mtime: genMtime(r)})
+		t.add(tnode{path: "/d/sub", kind: 'd', mtime: genMtime(r)})
+		t.add(tnode{path: "/d/f1", kind: 'f', size: 5, seed: 1, mtime: genMtime(r)})
+		t.add(tnode{path: "/d/sub/f2", kind: 'f', size: 3, seed: 1, mtime: genMtime(r)})
+		t.add(tnode{path: "/d/self", kind: 'l', target: "/d/self"})
+		t.add(tnode{path: "/d/thru", kind: 'l', target: "/d/f1/x"})
+		t.add(tnode{path: "/d/pair1", kind: 'l', target: "/d/pair2"})
+		t.add(tnode{path: "/d/pair2", kind: 'l', target: "/d/pair1"})
+		o.count("unresolvable-links")
+		runOne(t, []creq{{op: opGetDirSize, path: "/d"}, {op: opGetDirSize, path: "/"}, {op: opGetDirSize, path: "/d/sub"}, {op: opGetDirSize, path: "/d/self"},
+			{op: opStatFile, path: "/d/self"}, {op: opStatFile, path: "/d/thru"}, {op: opOpenDir, path: "/d"}, {op: opReadDir},
+			{op: opOpenDir, path: "/d"}, {op: opReadDirEntry}, {op: opReadDirEntry}, {op: opReadDirEntry}, {op: opReadDirEntry}, {op: opOpenDir, path: "/d/thru"}}, "links:unresolvable")
+	}
+	// links that form a cycle through directories (A/l0 -> B, B/l1 -> A; a link to its own parent): every level
+	// resolves until the 41st link of one path does not; what is counted on the way is what the walk finds
+	{
+		t := &tree{}
+		t.add(tnode{path: "/", kind: 'd', mtime: genMtime(r)})
+		for _, d := range []string{"/A", "/B", "/C", "/C/in"} {
+			t.add(tnode{path: d, kind: 'd', mtime: genMtime(r)})
+		}
+		t.add(tnode{path: "/A/a.bin", kind: 'f', size: 100, seed: 1, mtime: genMtime(r)})
+		t.add(tnode{path: "/B/b.bin", kind: 'f', size: 2049, seed: 2, mtime: genMtime(r)})
+		t.add(tnode{path: "/C/c.bin", kind: 'f', size: 7, seed: 3, mtime: genMtime(r)})
+		t.add(tnode{path: "/C/in/d.bin", kind: 'f', size: 9, seed: 3, mtime: genMtime(r)})
+		t.add(tnode{path: "/A/l0", kind: 'l', target: "/B"})
+		t.add(tnode{path: "/B/l1", kind: 'l', target: "/A"})
+		o.count("symlink-cycle")
+		runOne(t, []creq{{op: opGetDirSize, path: "/A"}, {op: opGetDirSize, path: "/B"}, {op: opGetDirSize, path: "/C"}, {op: opGetDirSize, path: "/"},
+			{op: opGetDirSize, path: "/A/l0/l1"}, {op: opStatFile, path: "/A/l0/l1/a.bin"}, {op: opOpenDir, path: "/A"}, {op: opReadDir},
+			{op: opOpenDir, path: "/B/l1"}, {op: opReadDirEntry}, {op: opReadDirEntry}, {op: opReadDirEntry}}, "cycle:two-links")
+		t2 := &tree{}
+		t2.add(tnode{path: "/", kind: 'd', mtime: genMtime(r)})
+		t2.add(tnode{path: "/P", kind: 'd', mtime: genMtime(r)})
+		t2.add(tnode{path: "/P/sub", kind: 'd', mtime: genMtime(r)})
+		t2.add(tnode{path: "/P/sub/f.bin", kind: 'f', size: 33, seed: 4, mtime: genMtime(r)})
+		t2.add(tnode{path: "/P/sub/up", kind: 'l', target: "/P"})
+		t2.add(tnode{path: "/Q", kind: 'd', mtime: genMtime(r)})
+		t2.add(tnode{path: "/Q/q.bin", kind: 'f', size: 5, seed: 4, mtime: genMtime(r)})
+		runOne(t2, []creq{{op: opGetDirSize, path: "/P"}, {op: opGetDirSize, path: "/P/sub"}, {op: opGetDirSize, path: "/Q"}, {op: opGetDirSize, path: "/"},
+			{op: opOpenDir, path: "/P/sub/up/sub"}, {op: opReadDirEntryV2}, {op: opReadDirEntryV2}, {op: opReadDirEntryV2}}, "cycle:link-to-parent")
 	}
 	for ti := 0; ti < trees; ti++ {
 		t := genTree(r, 4, 8, true)
